@@ -75,6 +75,11 @@ def load(path: Union[str, DDSPath, pathlib.Path]) -> Any:
                 f"Path {path_} is loaded before it is produced by the current evaluation"
             )
         return _store().fetch_blob(key)
+    if _eval_ctx is not None and path_ in _eval_ctx.loaded_paths:
+        # The path has been resolved when the code was analyzed, and its key is part of the signatures of
+        # this evaluation: the content must be the one of that key, even if another process has
+        # committed the path again in the meantime.
+        return _store().fetch_blob(_eval_ctx.loaded_paths[path_])
     key = _store().fetch_paths([path_]).get(path_)
     if key is None:
         raise DDSException(f"The store {_store()} did not return path {path_}")
@@ -303,6 +308,7 @@ def _eval_new_ctx(
     _eval_ctx = EvalContext(
         requested_paths={},
         stats_time=dict([(stage, 0.0) for stage in ProcessingStage.all_phases()]),
+        loaded_paths={},
     )
     try:
         t = _time()
@@ -369,7 +375,10 @@ def _eval_new_ctx(
         _logger.debug(
             f"_eval_new_ctx: assigning {len(store_paths)} store path(s) to context"
         )
-        _eval_ctx = _eval_ctx._replace(requested_paths=store_paths)
+        _eval_ctx = _eval_ctx._replace(
+            requested_paths=store_paths,
+            loaded_paths=OrderedDict(resolved_indirect_refs),
+        )
         present_blobs: Optional[Set[PyHash]]
         if extra_debug:
             present_blobs = set(
